@@ -34,7 +34,7 @@ var (
 
 // variant of build each property needs.
 var variants = map[string]string{
-	"C05": "order", "C19": "sched",
+	"C05": "order", "C11": "order", "C19": "sched",
 }
 
 func envOr(k, d string) string {
